@@ -190,6 +190,8 @@ def gen_scheme(rng, family=None, max_pairs=200):
         k = rng.choice([2, 3, 5, 7])
         return {"b": [k * x for x in b], "t": [k * x for x in t], "scale": s * rng.choice([1, 2, 4]),
                 "family": family}
+    if family == "fingerprint" and max_pairs > 3000:
+        family = "grid"   # 3000 * 60^7 < 2^53: beyond that the positional numeral is no longer exact in float64
     if family == "fingerprint":
         # B = (0,1,K,K^2,K^3,K^4), T = (K^5,K^5,0,K^6,K^6,K^7): the score is a positional numeral whose
         # digits are the status counts. K > number of pair*ranking terms; capped so sums stay < 2^53.
@@ -280,7 +282,7 @@ def name_elements(rng, n, kind):
     raise ValueError(kind)
 
 
-def gen_dataset(rng, nmax=7, mmax=5, family=None, kind=None, allow_empty=True, nmin=1, big=0.0, big_nmax=40, big_hi=0.15):
+def gen_dataset(rng, nmax=7, mmax=5, family=None, kind=None, allow_empty=True, nmin=1, big=0.0, big_nmax=40, big_hi=0.15, n_exact=None):
     """Returns (raw, meta). raw: list of rankings of buckets of values; at least one non-empty ranking.
     big: share of instances well above nmax / mmax (12..40 elements, 3..12 rankings): code paths that depend on a size."""
     if family is None:
@@ -290,8 +292,12 @@ def gen_dataset(rng, nmax=7, mmax=5, family=None, kind=None, allow_empty=True, n
     n = rng.randint(nmin, nmax)
     m = rng.randint(1, mmax)
     is_big = big > 0 and rng.random() < big
+    if n_exact is not None:
+        # a requested (large) size: used by the thorough tier for a handful of instances of several hundred elements
+        is_big = True
+        big_nmax, big_hi = n_exact, 2.0
     if is_big:
-        n = rng.randint(12, min(40, big_nmax)) if (big_nmax <= 40 or rng.random() >= big_hi) else rng.randint(41, big_nmax)
+        n = rng.randint(12, min(40, big_nmax)) if (big_nmax <= 40 or rng.random() >= big_hi) else rng.randint(41 if n_exact is None else n_exact, big_nmax)
         m = rng.randint(3, 12)
     elems = name_elements(rng, n, kind)
     td = rng.choice([0.0, 0.2, 0.5, 0.8])
